@@ -151,7 +151,7 @@ def run(c: Check):
         "a handler error counts as an answer (ServerBase answers SERVFAIL on handler errors)",
         "upstream, filter storage, query log, billing, rule statistics, DNSDB, GeoIP and the profile database are "
         "recording fakes; rate limiter fake never limits; cache effect observed through the cache's Prometheus metrics",
-        "excluded inputs: EDNS options (malformed ECS is answered FORMERR before the access check, see DESIGN C10), "
+        "excluded inputs: malformed ECS options (answered FORMERR before the access check, see DESIGN C10; valid ones pointing into another ASN are included), "
         "zoned link-local addresses, CHAOS class, special names of the initial middleware",
         "TLC, SANY, CommunityModules Json",
     ]
